@@ -915,6 +915,10 @@ func (c Identifiers[V]) AddArgs(names []string, outersUsed *[]string) Identifier
 		ident, ok := c(name)
 		if outersUsed != nil {
 			if ok && !ident.IsConst {
+				if ident.ThisName != "" {
+					// an attribute of the map, the map itself is the outer value
+					name = ident.ThisName
+				}
 				found := false
 				for _, n := range *outersUsed {
 					if n == name {
